@@ -161,6 +161,9 @@ func registryText() string {
 // constructor, so that a registry built lazily on first use (which modifies nothing an observer could have seen before)
 // is complete — and before any other name has been looked up, so that a per-entry write-back on first lookup still shows.
 func warmRegistryText() string {
+	if inChild { // a fresh child observes first-use behaviour: nothing of the library may run before its own calls
+		return ""
+	}
 	if n := otp.ListSuites(); len(n) > 0 {
 		sortStrings(n)
 		otp.IsKnownSuite(n[0])
